@@ -26,6 +26,13 @@ type LoopContract struct {
 	Invariants []Clause
 	Decreases  *Clause
 	Unroll     int // > 0: bounded unrolling instead of an invariant (labelled bounded)
+	Heads      []LoopGhost // "loop k ghost v := e": ghost snapshot taken at the head of every iteration
+	Steps      []Clause    // "loop k step label: e": holds at every back edge (one whole iteration after the head snapshot)
+}
+
+type LoopGhost struct {
+	Var    string
+	Clause Clause
 }
 
 type GhostUpdate struct {
@@ -40,6 +47,7 @@ type Contract struct {
 	Requires []Clause
 	Assumes  []Clause // assumed when the body is verified, not checked at call sites (environment assumptions, listed in the evidence)
 	Ensures  []Clause
+	Exits    []Clause // like ensures, but over the function's locals at the return; never used at call sites
 	Lets     []Clause // Label = name
 	Modifies []string
 	ModAll   bool
@@ -98,6 +106,7 @@ type Lemma struct {
 
 type ContractSet struct {
 	GhostNames map[string]bool // every ghost variable named in a contract or spec file
+	ScratchGhost map[string]bool // loop head snapshots (and their prev_ copies): proof-local, outside every frame
 	Stable    []string // heap key prefixes changed only through contracts that name them (unknown callees cannot reach them)
 	Immutable []string // heap key prefixes "H|<pkgname>.<Type>|<field>" never written after construction
 	ByKey  map[string]*Contract // "pkgpath|key"
@@ -443,6 +452,15 @@ func (cs *ContractSet) loadFile(path, repoDir string) error {
 					c.Label = fmt.Sprintf("a%d", len(cur.Assumes))
 				}
 				cur.Assumes = append(cur.Assumes, c)
+			case "exit":
+				c, err := parseClause(rest, path, lineNo)
+				if err != nil {
+					return err
+				}
+				if c.Label == "" {
+					c.Label = fmt.Sprintf("x%d", len(cur.Exits))
+				}
+				cur.Exits = append(cur.Exits, c)
 			case "requires", "ensures":
 				c, err := parseClause(rest, path, lineNo)
 				if err != nil {
@@ -529,7 +547,7 @@ func (cs *ContractSet) loadFile(path, repoDir string) error {
 				}
 				cur.Ghost = append(cur.Ghost, GhostUpdate{Var: m[1], Expr: ex, Text: m[2]})
 			case "loop":
-				m := regexp.MustCompile(`^(\d+)\s+(invariant|decreases|unroll)\s+(.*)$`).FindStringSubmatch(rest)
+				m := regexp.MustCompile(`^(\d+)\s+(invariant|decreases|unroll|ghost|step)\s+(.*)$`).FindStringSubmatch(rest)
 				if m == nil {
 					return fmt.Errorf("%s:%d: bad loop clause %q", path, lineNo, rest)
 				}
@@ -547,9 +565,35 @@ func (cs *ContractSet) loadFile(path, repoDir string) error {
 					lc.Unroll = n
 					continue
 				}
+				if m[2] == "ghost" {
+					g := regexp.MustCompile(`^(\w+)\s*:=\s*(.*)$`).FindStringSubmatch(m[3])
+					if g == nil {
+						return fmt.Errorf("%s:%d: loop k ghost x := expr", path, lineNo)
+					}
+					c, err := parseClause(g[2], path, lineNo)
+					if err != nil {
+						return err
+					}
+					lc.Heads = append(lc.Heads, LoopGhost{Var: g[1], Clause: c})
+					cs.GhostNames[g[1]] = true
+					cs.GhostNames["prev_"+g[1]] = true
+					if cs.ScratchGhost == nil {
+						cs.ScratchGhost = map[string]bool{}
+					}
+					cs.ScratchGhost[g[1]] = true
+					cs.ScratchGhost["prev_"+g[1]] = true
+					continue
+				}
 				c, err := parseClause(m[3], path, lineNo)
 				if err != nil {
 					return err
+				}
+				if m[2] == "step" {
+					if c.Label == "" {
+						c.Label = fmt.Sprintf("s%d", len(lc.Steps))
+					}
+					lc.Steps = append(lc.Steps, c)
+					continue
 				}
 				if m[2] == "invariant" {
 					if c.Label == "" {
